@@ -121,9 +121,11 @@ class PyList(V):
 class AbsList(V):
     """List of unknown length built by the analysed code (join of lists)."""
 
-    def __init__(self, elem: V, minlen: int):
+    def __init__(self, elem: V, minlen: int, order=None):
         self.elem = elem
         self.minlen = minlen
+        # provenance of the items in list order: production-symbol indices, '?' when unknown
+        self.order = list(order) if order is not None else ["?"]
 
     def __repr__(self):
         return f"AbsList({self.elem!r}, min={self.minlen})"
